@@ -67,5 +67,14 @@ func IsNil(node interface{}) bool {
 		return true
 	}
 
-	return reflect.ValueOf(node).IsNil()
+	// Only some kinds of values can be nil. reflect will panic if IsNil is used
+	// on any other kind (such as a string, integer or struct).
+	value := reflect.ValueOf(node)
+	switch value.Kind() {
+	case reflect.Chan, reflect.Func, reflect.Interface, reflect.Map,
+		reflect.Ptr, reflect.Slice, reflect.UnsafePointer:
+		return value.IsNil()
+	}
+
+	return false
 }
